@@ -23,7 +23,15 @@ KINDS = ["mic", "mic", "mic", "t", "closest", "plain", "core"]
 NCASES = {"quick": 2400, "thorough": 24000}
 
 
+ASAN_EVERY = {"quick": 25, "thorough": 6}
+GROUPS = {"quick": [dict(name="asan", flavour="asan", workers=1)], "thorough": [dict(name="asan", flavour="asan", workers=3)]}
+
+
 def gen_cases(tier, seed):
+    return common.with_asan_slice(_gen_cases(tier, seed), ASAN_EVERY[tier])
+
+
+def _gen_cases(tier, seed):
     n = NCASES[tier]
     for i in range(n):
         rng = common.rng_for("C05", seed, i)
